@@ -14,7 +14,7 @@ PROPS["C19"] = dict(
     rule="every system with v variables and <= e equations, each equation any non-empty strictly increasing variable list with any c-bit constant (ordered tuples of equations, so repeated/dependent/contradictory rows all occur); a system is non-trivial when it has >= 2 equations; each system is enumerated exactly once; plus systems of 2-3 VERY WIDE equations (all pairs of widths from {1,2,3,254..258,300,511..513,1000,65536,65537}, four overlap patterns, all 16 constant pairs, four choices of a third equation) decided by an independent bitset Gaussian elimination - counters of the lazy solver must not be narrower than an equation",
     alphabet="(v,e,c) spaces; both solvers; W in {usize,u8}",
     bound={"quick": "(v<=e_max,c): (1,4,2) (2,4,2) (3,4,2) (4,3,2) (4,4,1) (5,3,1) (4,4,2) (6,3,1); u8 for v<=4,e<=3",
-           "thorough": "quick + (3,5,2) (5,4,1) (4,5,1) (5,4,2) (7,3,1)"},
+           "thorough": "quick + (3,5,2) (5,4,1) (4,5,1) (5,4,2) (7,3,1) (6,4,1) (8,3,1)"},
     oracle="brute force over all 2^v assignments per bit-plane decides solvability; Ok(s) => solvable and s satisfies every equation (own evaluation and Modulo2System::check); Err => unsolvable; any panic is a violation",
     assumptions=STRICT,
 )
@@ -36,7 +36,7 @@ PROPS["C16"] = dict(
     rule="case = (ShardEdge impl, n, eps, max_shard choice) set-up through set_up_shards+set_up_graphs; inside each case the cross product of extreme values of both signature words (0,1,2^32+-1,2^63,MAX-1,MAX, alternating, every 2^j, ~2^j, 2^j-1: 190 values per word) is evaluated, plus first words at the steps of the fixed-point inversions (within -2..=shards+2 of k 2^64/M and k 2^32/M for every cell count M of the public geometry and k in {1,2,3,M/2,M-2,M-1}, pulled back through every shift/rotation by 0, shard bits, shard bits + 1) x 6 second words; a case is non-trivial when the set-up succeeded and is not a duplicate of another max_shard choice",
     alphabet="7 ShardEdge impls (FuseLge3Shards, FuseLge3NoShards x [u64;2]/[u64;1], FuseLge3FullSigs, Mwhc3Shards, Mwhc3NoShards); eps in {0.001,0.01,0.1}; max_shard in {ceil(n/s), floor(1.01 n/s)} (n when s=1)",
     bound={"quick": "every n in 0..=2500, powers of 2 and 10 +-1 to 10^12, 50000 j +-1, values just below each shard-count switch, 12% geometric grid to 10^12; signature grid thinned 1/3 above n=2500 and 1/5 above 10^6",
-           "thorough": "every n in 0..=20000, same boundaries, 1% geometric grid to 10^12"},
+           "thorough": "every n in 0..=60000, same boundaries, 1% geometric grid to 10^12"},
     oracle="edge(sig) pairwise distinct; < num_vertices*num_shards; inside [shard*nv,(shard+1)*nv); == local_edge(local_sig(sig)) + shard*nv; sort_key < num_sort_keys; shard(sig) == Sig::high_bits(shard_high_bits) (the signature store's function); set-up panics other than the documented too-many-vertices assertion are violations",
     assumptions=STRICT,
 )
